@@ -1154,6 +1154,11 @@ def fam_refusals(rng, n, dist):
             # the server drops its end of the data connection (abortively) before it sends the refusal
             b.cur[-1]["data"]["reset_first"] = True
             dist.add("refusal:data-connection-reset-by-the-server-first")
+        elif at == "cmd" and mode == "P" and not b.tls and b.cur and b.cur[-1].get("data") and i % 16 == 5:
+            # the server keeps its end of the unused data connection open for a while (parked for the next transfer, or
+            # never accepted): the refused call returns at once all the same
+            b.cur[-1]["data"]["park"] = True
+            dist.add("refusal:unused-data-connection-left-open-by-the-server")
         add_simple(b, rng, 200)
         add_transfer(b, rng, dist, kind=rng.choice(["D", "U", "F"]))
         b.disconnect(True)
